@@ -362,7 +362,9 @@ def run_unit(unit_path, repo=None, twin=True):
         refuted = {f["item"] for f in ft if "VACUITY" in f["labels"]}
         need = {i for i, it in enumerate(wt.items) if it.get("has_body")}
         missing = sorted(need - refuted)
-        if missing:
+        hneed = {"HINTVAC#%d" % h["n"] for h in wt.hint_probes}
+        hrefuted = {l for f in ft for l in f["labels"] if l.startswith("HINTVAC#")}
+        if missing or (hneed - hrefuted):
             # a function with other failing obligations may have used up the small budget: full run
             rct, outt, errt, secst = _verus(procs[1][1], 50)
             if rct is None:
@@ -376,7 +378,15 @@ def run_unit(unit_path, repo=None, twin=True):
                 return res
             refuted = {f["item"] for f in ft if "VACUITY" in f["labels"]}
             missing = sorted(need - refuted)
+            hrefuted = {l for f in ft for l in f["labels"] if l.startswith("HINTVAC#")}
         res["vacuity_twins_rejected"] = len(need & refuted)
+        res["hint_antecedents_reachable"] = len(hneed & hrefuted)
+        hmissing = sorted(hneed - hrefuted)
+        if hmissing and not missing:
+            hp = {("HINTVAC#%d" % h["n"]): h for h in wt.hint_probes}
+            res.update(status="undecided", reason="vacuity: the antecedent of a labelled proof hint can never hold where the hint stands (it proves nothing there): %s"
+                       % "; ".join("%s [%s]" % (hp[k]["text"][:120], ",".join(hp[k]["labels"])) for k in hmissing))
+            return res
         if missing:
             res.update(status="undecided", reason="vacuity: `ensures false` was ACCEPTED for %s (contradictory precondition or assumption)"
                        % ", ".join(wt.items[i]["fn"] for i in missing))
